@@ -153,6 +153,76 @@ def _encode_side(prog, res, mod, kind, N, f):
     res.ob("G-count", "%s::encode | the count field is the list's own length, written before the elements" % mod, ok, d, loc, sample=d)
 
 
+def _length_driven_loop(prog, f, fa, h, body, pushb, n_t, names):
+    import looprules
+    vec = _obj_of(fa.call_args(pushb)[0])
+    if vec.op != "loc":
+        return False, "the pushed list is not a local"
+    L = vec.args[1]
+    # fresh: the only definition outside the loop is the constructor
+    ds = [d_ for d_ in fa.defs(L) if d_[2] != "borrow"]
+    outside = [d_ for d_ in ds if d_[0] not in body]
+    if len(outside) != 1:
+        return False, "the list is not built once before the loop"
+    v0 = fa.defterm(L, outside[0][0], outside[0][1], outside[0][2])
+    if not (v0.op == "call" and v0.args[0].endswith("::new") and not v0.args[1]):
+        return False, "the list does not start as new()"
+    found = None
+    for x in sorted(body):
+        t = f.term(x)
+        if t["k"] != "switch":
+            continue
+        stay = [s_ for s_ in f.succ(x) if s_ in body]
+        leave = [s_ for s_ in f.succ(x) if s_ not in body]
+        if len(stay) != 1 or len(leave) != 1:
+            continue
+        facts = [fact_of_guard(g) for g in fa.edge_guard(x, stay[0])]
+        for fc in facts:
+            if fc[0] == "Lt" and fc[1].op == "call" and fc[1].args[0] in libmodel.LEN_FNS and _is_list_value(fc[1].args[1][0], vec, L, h) \
+                    and _strip_casts(fc[2]) is _strip_casts(n_t):
+                found = (x, stay[0], leave[0])
+    if found is None:
+        return False, "no loop test `list.len() < count`"
+    x, stay, leave = found
+    if not f.dominates(x, pushb):
+        return False, "the push is not under the length test"
+    # every way back to the head passes the push (other exits of the body leave the function)
+    okc, dc = looprules.action_complete(f, fa, pushb)
+    if not okc:
+        return False, dc
+    okm, dm = looprules.only_mutated_by(f, L, {pushb})
+    if not okm:
+        return False, dm
+    # a normal exit is only through the length test
+    for y in sorted(body):
+        for s_ in f.succ(y):
+            if s_ not in body and (y, s_) != (x, leave):
+                reach = f.reach_from(s_)
+                if any(r in f.return_blocks() for r in reach) and not _only_err_returns(f, fa, s_):
+                    return False, "the loop can also be left at block %d" % y
+    return True, "while %s.len() < count { push }" % names.get(L, "_%d" % L)
+
+
+def _is_list_value(t, vec, L, h):
+    """t denotes the list local L at the loop head: a reference to it, or (observer calls carry the receiver's value) its loop-head phi"""
+    x = _obj_of(t)
+    return x is vec or (x.op == "phi" and x.args[1] == L and x.args[2] == h)
+
+
+def _only_err_returns(f, fa, start):
+    """every return reachable from `start` without re-entering a loop is an Err(..) / residual"""
+    for b in f.reach_from(start) | {start}:
+        for i, s_ in enumerate(f.blocks[b]["stmts"]):
+            if s_["k"] == "assign" and s_["place"]["local"] == 0 and not s_["place"]["proj"]:
+                v = fa.rv_term(s_["rv"], (b, i))
+                if v.op == "agg" and v.args[2] == "Ok":
+                    return False
+        t = f.term(b)
+        if t["k"] == "call" and t["dest"]["local"] == 0 and not (callee_of(t) or "").endswith("::from_residual"):
+            return False
+    return True
+
+
 def _decode_side(prog, res, mod, kind, N, f):
     fa = FA(f, prog)
     iv = Intervals(fa, prog)
@@ -197,6 +267,10 @@ def _decode_side(prog, res, mod, kind, N, f):
         pushes = [x for x in body if f.term(x)["k"] == "call" and (callee_of(f.term(x)) or "").endswith(("DataVec::<T, N>::push", "Df88591String::<N>::push"))]
         if len(pushes) == 1:
             pushb = pushes[0]
+        if not okr and pushb is not None:
+            # `while value.len() < n { value.push(..) }`: the list starts empty, the loop continues exactly while its length is below n, the one
+            # push is on every path back to the head and nothing else changes the list - so it ends with exactly n pushes
+            okr, d = _length_driven_loop(prog, f, fa, h, body, pushb, n_t, names)
     res.ob("G-count", "%s::decode | reads exactly `count` elements, pushing each once, in order" % mod, okr and pushb is not None, d, loc, sample=d)
     if pushb is not None:
         pv = fa.call_args(pushb)[1]
